@@ -114,6 +114,37 @@ fn part_tokenize(max: u32) -> PartResult {
         r.violations.extend(v);
     }
     r.evaluations += nt;
+    // third alphabet with a non-ASCII space (U+3000): it separates nothing
+    let alpha_usp: Vec<char> = vec!['A', 'a', ' ', ':', '\u{3000}'];
+    let nu = count_strings(alpha_usp.len() as u64, maxt);
+    let res = par_ranges(nu, threads(), 4096, |a, b| {
+        let mut v = vec![];
+        for i in a..b {
+            let line = nth_string(&alpha_usp, maxt, i);
+            // leading blanks are skipped by the server, and it skips every kind of blank there
+            // (a line that begins with U+3000 has no command word either way): only U+3000
+            // after the first word is judged
+            if line.trim_start_matches(' ').starts_with('\u{3000}') {
+                continue;
+            }
+            for f in case_tokenize(&line) {
+                if v.len() < 10 {
+                    v.push(fv("fun:tokenize", f, json!({"line": line})));
+                }
+            }
+        }
+        v
+    });
+    for v in res {
+        r.violations.extend(v);
+    }
+    r.evaluations += nu;
+    for l in ["JOIN #caf\u{3000}bar", "PRIVMSG #c\u{a0}d :x", "A a\u{2003}b", "A\u{85}a :b", "NICK na\u{a0}me", "TOPIC #c foo\u{2003}bar"] {
+        for f in case_tokenize(l) {
+            r.violations.push(fv("fun:tokenize", f, json!({"line": l})));
+        }
+        r.evaluations += 1;
+    }
     // hand-picked shapes outside the small alphabet
     for l in ["PRIVMSG bob\t:a b c", "A\t:a a", "A a\t:a :a", "A\ta\t a", "\tA a", "PRIVMSG bob http://x.y/z", "TOPIC #c a:b", "PRIVMSG bob :a:b :c", ":src!u@h PRIVMSG #c :x", "  PING   tok  ", "privmsg Bob :Hi", "USER a 0 * :R R", "KICK #c bob ::", "AWAY :", "MODE #c +k a:b", "PRIVMSG #c :", "PING a:"] {
         for f in case_tokenize(l) {
